@@ -16,7 +16,7 @@ from .absint import Env, Interp
 from .astutil import attr_chain, call_name, const_value, num_value, unparse
 from .core import ClassInfo, FuncInfo, Repo
 
-C, I, D, T = "C", "I", "D", "T"
+C, I, D, T, M = "C", "I", "D", "T", "M"  # M: definitely not monotone in the required sense (mixed / wrong reduction)
 
 
 def pjoin(a: str, b: str) -> str:
@@ -26,7 +26,9 @@ def pjoin(a: str, b: str) -> str:
         return b
     if b == C:
         return a
-    return T
+    if T in (a, b):
+        return T
+    return M  # join of an increasing and a decreasing alternative: one of them is wrong
 
 
 def pflip(a: str) -> str:
@@ -34,7 +36,15 @@ def pflip(a: str) -> str:
 
 
 def padd(a: str, b: str) -> str:
-    return pjoin(a, b)
+    if a == b:
+        return a
+    if a == C:
+        return b
+    if b == C:
+        return a
+    if M in (a, b) and T not in (a, b):
+        return M
+    return T  # sum of an increasing and a decreasing value: unknown
 
 
 SIGN_JOIN = {
@@ -187,6 +197,7 @@ class Polarity(Interp):
         self.stores: List[Tuple[ast.stmt, str, PV]] = []
         self.unknown_ops: List[str] = []
         self.idioms: List[str] = []
+        self.definite: List[str] = []
         self.callable_dec: set = set()
         self.iter_models: Dict[str, PV] = {}
 
@@ -709,9 +720,11 @@ class Polarity(Interp):
                 # per-point function of per-point distance -> function of the set (nearest) distance
                 if (which == "max" and v == D) or (which == "min" and v == I):
                     pol["D" + lab] = v
+                elif v in (I, D):
+                    pol["D" + lab] = M
+                    self.definite.append(f"`{unparse(node)[:70]}`: `{which}` over the points axis of a value that is {v} in the per-point distance selects the FARTHEST point of the subset, not the nearest")
                 else:
-                    pol["D" + lab] = T
-                    self.note_unknown(node, f"`{which}` over the points axis of a value {v} in the per-point distance selects the farthest point")
+                    pol["D" + lab] = v
             else:
                 pol[k] = v
         res = mk(pol, target.sign)
@@ -736,6 +749,7 @@ class Polarity(Interp):
         sub.iter_models = self.iter_models
         sub.run(env)
         self.idioms += sub.idioms
+        self.definite += sub.definite
         self.unknown_ops += [f"[in {callee.qualname}] {u}" for u in sub.unknown_ops]
         out: Optional[PV] = None
         for v, _r, _e in sub.returns:
